@@ -65,11 +65,11 @@ def run_property(pid, tier):
             undecided_units.add(unit)
         # obligations that count for THIS property: clauses tagged with it, the implicit-safety groups of the functions that
         # carry such a clause (all functions when the unit has no clause tagged for this property), template lemmas tagged with it
-        tagged_fns = {o["fn"] for o in r.obligations if o["kind"] == "tagged" and o["id"].startswith(pid + ".")}
+        tagged_fns = {o["fn"] for o in r.obligations if o["kind"] == "tagged" and (o["id"].startswith(pid + ".") or pid in o.get("also", []))}
         for o in r.obligations:
             o = dict(o)
             o["unit"] = unit
-            mine = o["id"].startswith(pid + ".") if o["kind"] == "tagged" else (o["fn"] in tagged_fns or not tagged_fns)
+            mine = (o["id"].startswith(pid + ".") or pid in o.get("also", [])) if o["kind"] == "tagged" else (o["fn"] in tagged_fns or not tagged_fns)
             if mine:
                 obligations.append(o)
             else:
@@ -79,7 +79,7 @@ def run_property(pid, tier):
             f["unit"] = unit
             f["verifier_output"] = _verifier_excerpt(r.raw_err, f)
             m = re.match(r"(C\d\d)\.", f["id"])
-            if m and m.group(1) != pid and m.group(1) in P.claimed() and unit in P.claimed()[m.group(1)].get("verus", []):
+            if m and m.group(1) != pid and pid not in f.get("also", []) and m.group(1) in P.claimed() and unit in P.claimed()[m.group(1)].get("verus", []):
                 other_props_failed.append({"id": f["id"], "reported_under": m.group(1)})   # a clause of another property: decided and reported by that property's check
                 continue
             failed.append(f)
